@@ -183,6 +183,14 @@ class LogFamily(Family):
                 L.append(self.line(ops, init=rng.choice([0, 0x5a])))
             # H6: a second SET_LOG_BASE moves the window
             L.append(self.line([f"mt:{lay.token()}", f"lb:{hx(need)}:0"] + wr[:3] + [f"lb:{hx(need + 2)}:2000"] + wr[:6]))
+            # H8: the window is replaced (moved and/or resized) and only then regions join: they are logged in the window in force
+            big = max(need, add_need)
+            for (s1, o1, s2, o2) in ((big, 0, big, 0x2000), (need, 0x1000, big + 1, 0), (big + 2, 0x2000, big, 0x1000)):
+                L.append(self.line([f"mt:{lay.token()}", f"lb:{hx(s1)}:{hx(o1)}"] + wr[:2] + [f"lb:{hx(s2)}:{hx(o2)}", f"add:{newtok}"]
+                                   + wn[:5] + wr[:2]))
+                L.append(self.line([f"lb:{hx(s1)}:{hx(o1)}", f"lb:{hx(s2)}:{hx(o2)}", f"mt:{lay.token()}"] + wr[:4] + [f"add:{newtok}"] + wn[:4]))
+            L.append(self.line([f"mt:{lay.token()}", f"lb:{hx(sz)}:0", f"lb:{hx(max(sz, other.need()))}:2000", f"mt:{other.token()}"]
+                               + writes_for(other.regs, rng, False)[:6]))
         # concurrent writers on the bits of one byte (region of 16 pages starting at a multiple of 8)
         rounds = 10000 if thorough else 150
         for nt in ([2, 3, 4, 5, 7, 8, 9, 12, 16] if thorough else [2, 3, 8, 16]):
